@@ -148,6 +148,31 @@ func runC19(c *core.Ctx) {
 	if fd := errors.FlattenDetails(e); fd != strings.Join(got.Details, "\n--\n") {
 		c.Violate("flatten/details", "FlattenDetails is not the details joined by a '--' line", fmt.Sprintf("%s\n%q", t, fd))
 	}
+	// what the accessors return belongs to the caller (callers sort telemetry keys in place):
+	// scribbling on the returned slices must not change the error
+	if p := core.Try(func() {
+		if k := errors.GetTelemetryKeys(e); len(k) > 0 {
+			sort.Strings(k)
+			for i := range k {
+				k[i] = "scribbled"
+			}
+		}
+		if h := errors.GetAllHints(e); len(h) > 0 {
+			h[0] = "scribbled"
+		}
+		if d := errors.GetAllDetails(e); len(d) > 0 {
+			d[len(d)-1] = "scribbled"
+		}
+		if l := errors.GetAllIssueLinks(e); len(l) > 0 {
+			l[0].IssueURL, l[0].Detail = "scribbled", "scribbled"
+		}
+		again := observeAnn(e)
+		compareAnn(again, want, func(field, gs, ws string) {
+			c.Violate("accessor-aliased/"+field, "modifying the slice an accessor returned changes what the error reports afterwards", fmt.Sprintf("%s\n%s: got %s\n   want %s", t, field, gs, ws))
+		})
+	}); p != nil {
+		c.Violate("panic/scribble", "accessor panicked", fmt.Sprintf("%s\n%v", t, p))
+	}
 	// the same accessors on the error decoded at a knowing process
 	if p := core.Try(func() {
 		d, _ := sim.Hop(e)
